@@ -7,6 +7,7 @@ package auth
 
 //@ property C19 units: auth.WithPerm, auth.HasPerm, auth.PermissionedProxy, auth.PermissionedProxy$1, (*auth.Handler).ServeHTTP
 
+//@ static permission-context-key-has-a-private-type: #permKey != #int [C19]
 //@ -- the caller's permission set: what is attached to the context (even if empty), otherwise the defaults
 //@ pred attached(ctx) := istype(ctxValue(ctx, box(permCtxKey)), #[]Permission)
 //@ pred callerSet(ctx, def) := ite(attached(ctx), unbox(ctxValue(ctx, box(permCtxKey)), #[]Permission), def)
